@@ -195,7 +195,7 @@ func translateParams(h *ssa.Function, call *ssa.Call, s string) string {
 		if k >= len(call.Call.Args) {
 			break
 		}
-		re := regexp.MustCompile(`(^|[^A-Za-z0-9_.])` + regexp.QuoteMeta(prm.Name()) + `($|[^A-Za-z0-9_])`)
+		re := regexp.MustCompile(`(^|[^A-Za-z0-9_.])` + regexp.QuoteMeta(pname(prm)) + `($|[^A-Za-z0-9_])`)
 		actual := path(call.Call.Args[k])
 		for i := 0; i < 4 && re.MatchString(s); i++ {
 			s = re.ReplaceAllString(s, "${1}"+strings.ReplaceAll(actual, "$", "$$")+"${2}")
